@@ -394,3 +394,44 @@ def LSS.changeVtOp (x : LSS) (vt : VT) (off : Rat) (inplace : Bool) : Option LSS
   else (x.resolve.bind (Hook.changeVt vt off).run).map .res
 
 end SSM
+
+namespace SSM
+
+/-! ### `data()` / `samples()` -/
+
+/-- the order in which `data(sorted_by, reverse, index=True)` yields the rows (`index=True` asks NumPy for
+    the stable sort; without it any sorting permutation may come out): record order, or the stable sorting
+    permutation, flipped when `reverse` -/
+def dataOrder (rows : List Row) (by_ : Option Key) (reverse : Bool) : List Nat :=
+  let order := match by_ with
+    | none => List.range rows.length
+    | some k => argsort (rows.map (·.key k))
+  if reverse then order.reverse else order
+
+/-- what `data(...)` yields: the rows in that order, each with its record index -/
+def SS.data (s : SS) (by_ : Option Key) (reverse : Bool) : List (Row × Nat) :=
+  (dataOrder s.rows by_ reverse).filterMap fun i => (s.rows[i]?).map (·, i)
+
+/-- `samples(n, sorted_by)`: the sample rows in sorted order (`samples(sorted_by)[:n]` when `n` is given;
+    negative `n` follows Python's slice) -/
+def SS.samplesView (s : SS) (n : Option Int) (by_ : Option Key) : Option (List (List Rat)) :=
+  (sliceRows s.rows by_ ⟨none, n, none⟩).map (·.map (·.sample))
+
+/-! ### `concatenate` of sample sets with different data vectors (`stack_arrays(defaults=…)`) -/
+
+/-- the fields of the stacked record: every field in order of first appearance -/
+def unionFields (sets : List SS) : List String := firsts (sets.flatMap (·.fields))
+
+/-- a row of `s` laid out over the union of the fields: a field the set does not have is filled with
+    `fill f` (the entry of `defaults`, else NumPy's default fill value of the dtype — a parameter of the model) -/
+def relayExtra (fields : List String) (fill : String → List Rat) (s : SS) (r : Row) : Row :=
+  { r with extra := fields.map fun f => if f ∈ s.fields then r.extra.getD (s.fields.idxOf f) [] else fill f }
+
+def concatenateD (fill : String → List Rat) : List SS → Option SS
+  | [] => none
+  | first :: rest =>
+    let U := unionFields (first :: rest)
+    (allSome (rest.map fun s => (coerceTo first.vt first.labels s).map (·.map (relayExtra U fill s)))).map fun rs =>
+      { first with rows := first.rows.map (relayExtra U fill first) ++ rs.flatten, fields := U }
+
+end SSM
